@@ -53,6 +53,10 @@ func init() { commands["inputsim"] = inputsim }
 
 const inpNS = "default"
 
+var inpHidx bool      // secondary hash indexes defined on table ta
+var inpExpired bool   // prior state with expired and nearly expired objects
+var inpGroups = []int{1, 1, 3, 7} // path 2: vectors per apply group, by configuration
+
 // ---------------------------------------------------------------- child: a real server
 
 type inpRecSM struct {
@@ -151,6 +155,17 @@ func inpChild(dir string, port int, eng, policy string) error {
 	if !nd.IsLead() {
 		return fmt.Errorf("no leader")
 	}
+	if os.Getenv("ZR_HIDX") == "1" {
+		// secondary hash indexes on table "ta" (what the placement driver proposes for HIDX): an
+		// integer index on field f1 and a string index on field f2, so that the index-maintaining
+		// write paths of HSET/HMSET/HDEL/HINCRBY/HCLEAR see the malformed input as well
+		for _, ix := range inpIndexes() {
+			b, _ := json.Marshal(ix)
+			if err := nd.ProposeChangeTableSchema("ta", &node.SchemaChange{Type: node.SchemaChangeAddHsetIndex, Table: "ta", SchemaData: b}); err != nil {
+				return fmt.Errorf("index ddl: %v", err)
+			}
+		}
+	}
 	out := bufio.NewWriter(os.Stdout)
 	tables := node.VerifDetCommandTables(nd)
 	tables["internal"] = node.VerifDetInternalCommands(node.VerifDetSM(nd).(*inpRecSM).StateMachine)
@@ -205,6 +220,13 @@ type inpProc struct {
 	errf   string
 }
 
+func inpIndexes() []*common.HsetIndexSchema {
+	return []*common.HsetIndexSchema{
+		{Name: "ix_f1", IndexField: "f1", ValueType: common.Int64V, State: common.ReadyIndex},
+		{Name: "ix_f2", IndexField: "f2", ValueType: common.StringV, State: common.ReadyIndex},
+	}
+}
+
 func inpFreePort(rng *rand.Rand) int {
 	for i := 0; i < 200; i++ {
 		p := 21000 + rng.Intn(30000)
@@ -238,6 +260,9 @@ func inpStart(scratch string, prng *rand.Rand, eng, policy string, memMB int) (*
 	c := exec.Command("sh", "-c", script, "sh", self, "inputsim", "-mode", "child", "-dir", dir,
 		"-port", strconv.Itoa(port), "-eng", eng, "-policy", policy)
 	c.Env = append(os.Environ(), "GOGC=50")
+	if inpHidx {
+		c.Env = append(c.Env, "ZR_HIDX=1")
+	}
 	p := &inpProc{cmd: c, dir: dir, port: port, exited: make(chan struct{}), errf: path.Join(dir, "child.err")}
 	ef, _ := os.Create(p.errf)
 	c.Stderr = ef
@@ -516,6 +541,25 @@ func inpValid() map[string][]string {
 	}
 }
 
+var inpExpKeys = []string{"kvE1", "hsE1", "lsE1", "stE1", "zsE1", "kvN1", "hsN1", "lsN1", "stN1", "zsN1"}
+
+// inpExpPopulate: objects whose expiry has passed when the mutations start (E, 1 s) and objects
+// that expire while they run (N, 6 s).
+func inpExpPopulate() [][]string {
+	K := inpK
+	var out [][]string
+	for _, x := range []struct{ s, d string }{{"E1", "1"}, {"N1", "6"}} {
+		out = append(out, [][]string{
+			{"setex", K("kv" + x.s), x.d, "10"},
+			{"hmset", K("hs" + x.s), "f1", "1", "f2", "b"}, {"hexpire", K("hs" + x.s), x.d},
+			{"rpush", K("ls" + x.s), "a", "b", "c"}, {"lexpire", K("ls" + x.s), x.d},
+			{"sadd", K("st" + x.s), "m1", "m2", "m3"}, {"sexpire", K("st" + x.s), x.d},
+			{"zadd", K("zs" + x.s), "1", "m1", "2", "m2"}, {"zexpire", K("zs" + x.s), x.d},
+		}...)
+	}
+	return out
+}
+
 func inpPopulate(rng *rand.Rand) [][]string {
 	K := inpK
 	doc := inpValid()["_doc"][0]
@@ -673,6 +717,19 @@ func inpMutations(name string, valid []string, rng *rand.Rand, huge bool) []inpV
 		a := cp()
 		a[0] = ks
 		add(fmt.Sprintf("key=%.14q", ks), a)
+	}
+	// the same command on an object of its family whose expiry has passed / is about to pass
+	if inpExpired && len(valid) > 0 && strings.HasPrefix(valid[0], inpNS+":ta:") && len(valid[0]) >= len(inpNS)+6 {
+		fam := valid[0][len(inpNS)+4 : len(inpNS)+6]
+		for _, x := range []string{"E1", "N1"} {
+			for _, k := range inpExpKeys {
+				if k == fam+x {
+					a := cp()
+					a[0] = inpK(k)
+					add("expkey="+k, a)
+				}
+			}
+		}
 	}
 	// wrong type: the key of another family
 	if len(valid) > 0 && strings.HasPrefix(valid[0], inpNS+":ta:") {
@@ -932,6 +989,12 @@ func (d *inpDrv) startChild() error {
 	for _, c := range inpPopulate(d.rng) {
 		d.send(inpVec{name: c[0], mut: "valid", args: c}, "", false)
 	}
+	if inpExpired {
+		for _, c := range inpExpPopulate() {
+			d.send(inpVec{name: c[0], mut: "valid", args: c}, "", false)
+		}
+		time.Sleep(1300 * time.Millisecond) // the E objects are past their expiry from here on
+	}
 	return nil
 }
 
@@ -1141,10 +1204,16 @@ func inputsim(args []string) error {
 	memMB := fs.Int("mem", 3000, "address-space limit of the child in MB (ulimit -v)")
 	isolate := fs.String("isolate", "", "isolate stage: huge-json-index | nonutf8-table | batch-abort")
 	group := fs.Int("group", 1, "path 2: vectors per apply group")
+	hidx := fs.Bool("hidx", false, "define secondary hash indexes (HIDX) on table ta in the child and on path 2")
+	expired := fs.Bool("expired", false, "prior state with expired and nearly expired objects (wait_compact policy)")
 	vecs := fs.String("vecs", "", "isolate=vecs: JSON list of vectors (lists of strings, \\xNN escapes allowed) sent in this order")
 	fs.Parse(args)
 	if *mode == "child" {
 		return inpChild(*dir, *port, *eng, *policy)
+	}
+	inpHidx, inpExpired = *hidx, *expired && *policy == "compact"
+	if inpExpired {
+		inpPool = append(inpPool, inpExpKeys...)
 	}
 	detSilence()
 	rng := rand.New(rand.NewSource(*seed))
@@ -1185,7 +1254,7 @@ func inputsim(args []string) error {
 		// most often disagree about); the budget samples the value/key/option mutations
 		var rest []inpVec
 		for _, v := range all {
-			always := v.mut == "valid" || v.mut == "noargs" || strings.HasPrefix(v.mut, "drop") || v.mut == "append1" || v.mut == "append2"
+			always := strings.HasPrefix(v.mut, "expkey=") || v.mut == "valid" || v.mut == "noargs" || strings.HasPrefix(v.mut, "drop") || v.mut == "append1" || v.mut == "append2"
 			// over-long sub-keys in write commands: the handler may have buffered the valid
 			// leading elements when it meets the bad one (error path with a non-empty write batch)
 			if k := d.rw[v.name]; (k == "w" || k == "mw") && strings.HasPrefix(v.mut, "sub") && strings.Contains(v.mut, `="SSSSSS`) {
